@@ -1,4 +1,5 @@
 """C07 - least-squares solver (spec/LsqBuffers.tla)."""
+import json
 import os
 import vlib
 from vlib import Report
@@ -19,8 +20,31 @@ def run(tier, seed, prop=PROP):
     quick = tier == "quick"
     # leg 1: buffer life-cycle, every history of problems of varying sizes on one solver (estimate sizes 1..2, data sizes 1..2/3)
     vlib.mc(rep, "MC_LsqBuffers.tla", dict(Ests={1, 2}, MaxData=2 if quick else 3, Vals={0, 1, 2}, Xs={0, 1, 2}, MaxOps=6 if quick else 7),
-            "mc_lsq", ["CapacityCoversData", "OnlyCurrentRows", "SameAsFresh"], view=None,
+            "mc_lsq", ["CapacityCoversData", "OnlyCurrentRows", "SameAsFresh"], view="View",
             actions=["DoSetData", "DoFill", "DoSetW", "DoEstimate", "DoWeighted"])
+    # leg 2: every reachable model state that ends in an estimate, replayed on the real solver (SVD and Cholesky / weighted)
+    paths = vlib.gen_paths(rep, "MC_LsqBuffers.tla", dict(Ests={1, 2}, MaxData=2 if quick else 3, Vals={0, 1, 2}, Xs={0, 1, 2}, MaxOps=6), "gen_lsq")
+    sc = os.path.join(W, "gen.script")
+    n = 0
+    with open(sc, "w") as o:
+        for line in open(paths):
+            p = json.loads(line)
+            o.write("R %d\n" % p["est"])
+            for ev in p["path"]:
+                if ev["o"] == "D":
+                    o.write("D %d\n" % ev["n"])
+                elif ev["o"] == "F":
+                    o.write("F %d %s %d\n" % (ev["i"], " ".join(map(str, ev["j"])), ev["y"]))
+                elif ev["o"] == "W":
+                    o.write("W %d %d\n" % (ev["i"], ev["w"]))
+                else:
+                    o.write(ev["o"] + "\n")
+            n += 1
+    tr = os.path.join(W, "gen.ndjson")
+    vlib.run([exe, "script", sc, tr], timeout=1200)
+    rep.extra["replay"] = {"model_states_replayed": n}
+    vlib.trace_leg(rep, "Trace_LsqBuffers.tla", "Trace_LsqBuffers.cfg", tr, "gen_lsq",
+                   "shortest model path to every reachable post-estimate state, replayed on LeastSquares<float/double>")
     # leg 3: recorded histories of the real solver: sequences of problems (shrinking / growing), SVD / Cholesky / weighted, preconditioner
     tr = os.path.join(W, "lsq.ndjson")
     vlib.run([exe, "random", str(seed), str(1500 if quick else 20000), tr], timeout=1200)
